@@ -152,6 +152,7 @@ where
                     let strategy = mk_strategy();
                     let local_cell = std::cell::RefCell::new(Acc::default());
                     let failed_once = std::cell::Cell::new(false);
+                    let first_failure = std::cell::RefCell::new(String::new());
                     let n_local = std::cell::Cell::new(0u64);
                     let state_cell = std::cell::RefCell::new(&mut state);
                     let res = runner.run(&strategy, |case| {
@@ -206,6 +207,7 @@ where
                                 } else {
                                     failed_once.set(true);
                                     shared.stop.store(true, Ordering::Relaxed);
+                                    *first_failure.borrow_mut() = format!("{} :: {}", b.signature, b.detail.chars().take(300).collect::<String>());
                                     Err(TestCaseError::fail(b.signature))
                                 }
                             }
@@ -231,7 +233,7 @@ where
                                 let (signature, detail) = match v {
                                     Verdict::Fail(b) => (b.signature, b.detail),
                                     other => {
-                                        local.inconclusive.push(format!("a failure was observed but the shrunk case passes when re-run alone (attribution across workers?): {:?}", other));
+                                        local.inconclusive.push(format!("a failure was observed ({}) but the shrunk case passes when re-run alone (attribution across workers?): {:?}", first_failure.borrow(), other));
                                         (String::new(), String::new())
                                     }
                                 };
